@@ -203,32 +203,47 @@ def lean_pat(p):
     return "(.oneOf [%s])" % ", ".join(str(i) for i in p[1])
 
 
+def match_arms(body, what):
+    """arms of the single `match .. { .. }` inside an impl body"""
+    mm = re.search(r"\bmatch\s+[A-Za-z_][A-Za-z0-9_]*\s*\{", body)
+    if not mm:
+        raise Bad("%s: `match <ident> {` not found" % what)
+    arms, _ = block_after(body, mm.start())
+    if re.search(r"\bmatch\b", arms):
+        raise Bad("%s: nested match" % what)
+    return [a.strip() for a in split_top(arms, ",") if a.strip()]
+
+
 def parse_strings(src):
-    """Display: variant => "text";  FromStr: "text" => variant"""
+    """Display: every arm is `Variant => "text"`;  FromStr: literal arms `"text" => Variant`, then one catch-all `bail!`.
+    Every arm must be understood completely (or-patterns, guards, anything else = broken tie)."""
     m = re.search(r"impl\s+Display\s+for\s+%s\s*\{" % ENUM, src)
     if not m:
         raise Bad("impl Display for %s not found" % ENUM)
     body, _ = block_after(src, m.start())
-    disp = [(variant_id(a), s) for a, s in re.findall(r"((?:%s|Self)::[A-Za-z]+)\s*=>\s*\"([^\"\\]*)\"" % ENUM, body)]
+    disp = []
+    for arm in match_arms(body, "Display for %s" % ENUM):
+        am = re.fullmatch(r"((?:%s|Self)::[A-Za-z]+)\s*=>\s*\"([^\"\\]*)\"" % ENUM, arm)
+        if not am:
+            raise Bad("Display for %s: cannot parse arm %r" % (ENUM, arm))
+        disp.append((variant_id(am.group(1)), am.group(2)))
     m = re.search(r"impl\s+FromStr\s+for\s+%s\s*\{" % ENUM, src)
     if not m:
         raise Bad("impl FromStr for %s not found" % ENUM)
     body, _ = block_after(src, m.start())
-    frm = [(s, variant_id(a)) for s, a in re.findall(r"\"([^\"\\]*)\"\s*=>\s*((?:%s|Self)::[A-Za-z]+)" % ENUM, body)]
+    arms = match_arms(body, "FromStr for %s" % ENUM)
+    if not arms or not re.fullmatch(r"[a-z_][a-z0-9_]*\s*=>\s*bail!\(.*\)", arms[-1], flags=re.S):
+        raise Bad("FromStr for %s: the last arm is not a catch-all `bail!`" % ENUM)
+    frm = []
+    for arm in arms[:-1]:
+        am = re.fullmatch(r"\"([^\"\\]*)\"\s*=>\s*((?:%s|Self)::[A-Za-z]+)" % ENUM, arm)
+        if not am:
+            raise Bad("FromStr for %s: cannot parse arm %r" % (ENUM, arm))
+        frm.append((am.group(1), variant_id(am.group(2))))
     if len(disp) == 0 or len(frm) == 0:
         raise Bad("empty Display / FromStr table for %s" % ENUM)
-    n_arrows_d = len(re.findall(r"=>", re.search(r"impl\s+Display\s+for\s+%s\s*\{" % ENUM, src) and block_after(src, re.search(r"impl\s+Display\s+for\s+%s\s*\{" % ENUM, src).start())[0]))
-    if n_arrows_d != len(disp):
-        raise Bad("Display for %s has %d arms, %d understood" % (ENUM, n_arrows_d, len(disp)))
-    # FromStr has exactly one more arm: the catch-all error arm `scope => bail!(..)`
-    body_f = block_after(src, re.search(r"impl\s+FromStr\s+for\s+%s\s*\{" % ENUM, src).start())[0]
-    mm = re.search(r"match\s+s\s*\{", body_f)
-    if not mm:
-        raise Bad("FromStr for %s: `match s {` not found" % ENUM)
-    arms_f, _ = block_after(body_f, mm.start())
-    arm_list = [a for a in split_top(arms_f, ",") if a.strip()]
-    if len(arm_list) != len(frm) + 1 or not re.fullmatch(r"\s*[a-z_]+\s*=>\s*bail!\(.*\)\s*", arm_list[-1], flags=re.S):
-        raise Bad("FromStr for %s: expected %d literal arms followed by one catch-all `bail!` arm" % (ENUM, len(frm)))
+    if sorted(i for i, _ in disp) != sorted(IDS.values()):
+        raise Bad("Display for %s does not have exactly one arm per variant" % ENUM)
     return disp, frm
 
 
